@@ -129,7 +129,15 @@ def run(ctx, eng):
     loops = [nd for nd in ast.walk(f3.node) if isinstance(nd, ast.While)]
     ok = False
     if len(loops) == 1:
-        t = ast.unparse(loops[0].test).replace(' ', '')
+        class _Exp(ast.NodeTransformer):
+            # a local that holds the limit stands for the attribute
+            def visit_Name(s, n):
+                v = eng.D._single_assign(f3, n.id)
+                return v if v is not None and isinstance(
+                    v, ast.Attribute) else n
+        import copy
+        t = ast.unparse(_Exp().visit(copy.deepcopy(loops[0].test))
+                        ).replace(' ', '')
         body = [x for x in ast.walk(loops[0]) if isinstance(x, ast.Call) and
                 isinstance(x.func, ast.Attribute) and
                 x.func.attr == 'popitem']
@@ -162,12 +170,25 @@ def run(ctx, eng):
                (' (found %s)' % reorder) if reorder else ''),
            node=cls_sld.node)
     f3i = m.func('utilities.SizeLimitDict.__init__')
-    ok = any(isinstance(nd, ast.Call) and isinstance(nd.func, ast.Attribute)
-             and nd.func.attr == 'pop' and nd.args and
-             isinstance(nd.args[0], ast.Constant) and
-             nd.args[0].value == 'size_limit' for nd in ast.walk(f3i.node))
+    ok = False
+    for nd in ast.walk(f3i.node):
+        if isinstance(nd, ast.Assign) and any(
+                isinstance(t, ast.Attribute) and t.attr == '_size_limit'
+                for t in nd.targets):
+            v = nd.value
+            # kwargs.pop("size_limit", None), or a keyword-only parameter
+            # of that name
+            ok = (isinstance(v, ast.Call) and
+                  isinstance(v.func, ast.Attribute) and
+                  v.func.attr == 'pop' and v.args and
+                  isinstance(v.args[0], ast.Constant) and
+                  v.args[0].value == 'size_limit') or (
+                      isinstance(v, ast.Name) and v.id == 'size_limit' and
+                      'size_limit' in [a.arg for a in
+                                       f3i.node.args.kwonlyargs +
+                                       f3i.node.args.args])
     ctx.ob('ARITH.evict', f3i.qual, 'limit taken from size_limit', ok,
-           'self._size_limit = kwargs.pop("size_limit", None)',
+           'self._size_limit = the size_limit keyword argument',
            node=f3i.node)
     # ---- (4) clean-up on every creating path
     for name, counter, sid in (
